@@ -79,7 +79,7 @@ def run_batch(pid, tier, batch_seed, n_examples, watchdog_s):
                     return
         t_case = time.perf_counter()
         try:
-            run = engine.execute(case, focus=pid)
+            run = kernel.guarded_execute(engine, case, pid)
         except Violation as v:
             if state["target"] is None:
                 state["target"] = v.label
@@ -131,7 +131,14 @@ def run_batch(pid, tier, batch_seed, n_examples, watchdog_s):
         if state["last_fail"] is not None and isinstance(
             exc, getattr(hypothesis.errors, "FlakyFailure", ())
         ):
-            out["harness_error"] = "FLAKY (non-deterministic execution): " + repr(exc)[:500]
+            # The same case failed once and passed when Hypothesis executed it again.  The
+            # simulator itself is deterministic (self-test), so the outcome depends on state
+            # that earlier runs of this batch left behind in the code under test.  Reported as
+            # a candidate only: the parent accepts it if re-executing the whole batch in a
+            # fresh process ends in the same way, otherwise it is a harness error.
+            case, label, message = state["last_fail"]
+            out["failure"] = {"case": case, "label": label, "message": message,
+                              "state_dependent": True}
         else:
             out["harness_error"] = "".join(
                 traceback.format_exception(type(exc), exc, exc.__traceback__)
@@ -158,7 +165,7 @@ def load_known():
 def replay_case(engine, pid, case):
     """Execute one case; returns (label, message) of the violation or None."""
     try:
-        engine.execute(case, focus=pid)
+        kernel.guarded_execute(engine, case, pid)
     except Violation as v:
         return v.label, v.message
     return None
@@ -399,8 +406,10 @@ def check_property(prop, tier, base_seed):
                 env=dict(os.environ, PYTHONHASHSEED="0"),
             )
 
-        proc = fresh_replay()
-        reproduced = proc.returncode == 1 and f"label={failure['label']}" in proc.stdout
+        reproduced = False
+        if not failure.get("state_dependent"):
+            proc = fresh_replay()
+            reproduced = proc.returncode == 1 and f"label={failure['label']}" in proc.stdout
         if not reproduced and failure["batch"] >= 0:
             # The minimised case alone does not fail in a fresh process: the violation needs
             # state that earlier simulated runs of the same batch left behind in the code under
